@@ -571,6 +571,16 @@ static void ks_reg_prog(const char *name, const char *sec, int kind, void *fn)
 
 /* ------------------------------------------------------------------ state: reset / snapshot / digest */
 
+/* PARAM is a const object for the compiler: stores through a plain cast are
+ * undefined and get deleted by the optimiser. The address is laundered so the
+ * stores survive; the program's own reads are volatile loads. */
+static void *ks_param_ptr(void)
+{
+	void *q = (void *)&PARAM;
+	asm volatile("" : "+r"(q));
+	return q;
+}
+
 static void ks_reset_map(struct ks_map *m)
 {
 	m->max_entries = m->decl_max_entries;
@@ -720,7 +730,8 @@ static void rs_put(const void *p, size_t n)
 		rs_cap = (rs_len + n) * 2 + 256;
 		rs = realloc(rs, rs_cap);
 	}
-	memcpy(rs + rs_len, p, n);
+	if (n)
+		memcpy(rs + rs_len, p, n);
 	rs_len += n;
 }
 static void rs_u8(uint8_t v) { rs_put(&v, 1); }
@@ -825,9 +836,11 @@ static void dump_entries(struct ks_map *m)
 		return;
 	}
 	struct ks_entry *tmp = malloc(sizeof(struct ks_entry) * (m->n ? m->n : 1));
-	memcpy(tmp, m->ents, sizeof(struct ks_entry) * m->n);
-	cmp_entry_size = m->key_size;
-	qsort(tmp, m->n, sizeof(struct ks_entry), cmp_entry);
+	if (m->n) {
+		memcpy(tmp, m->ents, sizeof(struct ks_entry) * m->n);
+		cmp_entry_size = m->key_size;
+		qsort(tmp, m->n, sizeof(struct ks_entry), cmp_entry);
+	}
 	rs_u32(m->n);
 	for (uint32_t i = 0; i < m->n; i++) {
 		rs_put(tmp[i].key, m->key_size);
@@ -1012,7 +1025,7 @@ static void handle(void)
 		ks_snap_free();
 		ks_flush_grave();
 		ks_now_ns = 0;
-		memset((void *)&PARAM, 0, sizeof(PARAM));
+		memset(ks_param_ptr(), 0, sizeof(PARAM));
 		rs_i32(0);
 		break;
 	case OP_SET_MAXENT: {
@@ -1129,8 +1142,8 @@ static void handle(void)
 	case OP_SET_PARAM: {
 		uint32_t n = rq_u32();
 		const uint8_t *p = rq_bytes(n);
-		memset((void *)&PARAM, 0, sizeof(PARAM));
-		memcpy((void *)&PARAM, p, n < sizeof(PARAM) ? n : sizeof(PARAM));
+		memset(ks_param_ptr(), 0, sizeof(PARAM));
+		memcpy(ks_param_ptr(), p, n < sizeof(PARAM) ? n : sizeof(PARAM));
 		rs_i32(n == sizeof(PARAM) ? 0 : -EMSGSIZE);
 		break;
 	}
